@@ -337,6 +337,20 @@ def run_history(P, N, hist, rec, r, workdir, failpoints, hh):
                     step, op, a, exp, label, got, got_sql if label == "memory" else got_mem, short_map(before)), dict(pay, step=step))
                 return False
         rec.count("steps_agree")
+        if op in MUTATING:
+            # read-your-writes for every name this step could have touched: each one is looked up again on both back-ends (a name that was
+            # looked up before a bulk removal is the interesting one: nothing remembered from then may answer now)
+            touched = sorted(set(before) | set(model.snapshot()) | ({a["name"]} if isinstance(a.get("name"), str) else set()))
+            for nm in touched[:14]:
+                la = {"name": nm, "meta": True}
+                lexp = model.apply("lookup", la)
+                for label, ns_ in (("memory", mem), ("sqlite", sql)):
+                    lgot = real_apply(ns_, "lookup", la, URI)
+                    if lgot != lexp:
+                        rec.violation("%s-backend-differs-from-map:lookup-after-%s" % (label, classify(op, a)), "after step %d %s%r a lookup of %r gives %r on the %s back-end, the map says %r; "
+                                      "map before the step: %s" % (step, op, a, nm, lgot, label, lexp, short_map(before)), dict(pay, step=step))
+                        return False
+                rec.count("lookups_after_mutation")
         if r.random() < 0.08 or step == len(hist) - 1:
             after = listing_of(N, dbfile)
             if after != model.snapshot():
